@@ -683,6 +683,13 @@ func (b *BFT) RefreshRootChainInfo() {
 
 // NewHeight() initializes / resets consensus variables preparing for the NewHeight
 func (b *BFT) NewHeight(keepLocks ...bool) {
+	// a root-chain notification that does not advance the root height (a duplicate, or one the Pacemaker already picked up)
+	// must not restart the rounds: re-entering round 0 of a root height this replica already voted in would let it vote
+	// twice in the same view
+	if len(keepLocks) != 0 && keepLocks[0] && b.Controller.RootChainHeight() <= b.RootHeight {
+		b.log.Info("Ignoring root-chain update: root height did not advance")
+		return
+	}
 	// reset VotesForHeight
 	b.Votes = make(VotesForHeight)
 	// reset ProposalsForHeight
